@@ -10,6 +10,7 @@ import (
 	"github.com/form3tech-oss/f1/v2/internal/options"
 	"github.com/form3tech-oss/f1/v2/internal/progress"
 	"github.com/form3tech-oss/f1/v2/internal/run/views"
+	"github.com/form3tech-oss/f1/v2/internal/verifhook"
 )
 
 type Result struct {
@@ -66,6 +67,7 @@ func (r *Result) AddError(err error) *Result {
 }
 
 func (r *Result) Error() error {
+	verifhook.Yield("result.error.enter")
 	r.mu.RLock()
 	defer r.mu.RUnlock()
 
